@@ -423,6 +423,9 @@ func SingleLineM3Exprs(fset *token.FileSet, f *ast.File, max int) []ast.Expr {
 		if strings.Contains(s, "C(") && hasCmdCall(e) {
 			return true
 		}
+		if hasKeywordIdent(e) { // `type(x)`, `a.goto(1)`: identifiers spelled like keywords are outside M3
+			return true
+		}
 		if !seen[s] {
 			seen[s] = true
 			if c, err := Deser(s); err == nil {
@@ -432,6 +435,17 @@ func SingleLineM3Exprs(fset *token.FileSet, f *ast.File, max int) []ast.Expr {
 		return false
 	})
 	return out
+}
+
+func hasKeywordIdent(e ast.Expr) bool {
+	found := false
+	ast.Inspect(e, func(n ast.Node) bool {
+		if id, ok := n.(*ast.Ident); ok && token.Lookup(id.Name) != token.IDENT {
+			found = true
+		}
+		return !found
+	})
+	return found
 }
 
 func hasCmdCall(e ast.Expr) bool {
